@@ -22,6 +22,9 @@ STYLES = {
     # 'solve' asks the reference model for a constructive move (model.solve_action); it falls back to
     # 'legal' for environments whose model has no solver
     "survive_only": ["survive"],
+    # multi-agent conflict bias (same value chosen by several agents in one step); = legal for single-agent envs
+    "crowded": ["crowd"] * 5 + ["legal"] * 4 + ["raw"],
+    "crowd_only": ["crowd", "crowd", "legal"],
     "solve": ["solve"],
     "solveish": ["solve"] * 8 + ["legal", "raw"],
 }
@@ -33,7 +36,8 @@ def keys():
 
 
 @st.composite
-def plans(draw, max_len=60, styles=("legalish", "survive", "chaos", "legal", "late_illegal", "solveish"), min_len=1):
+def plans(draw, max_len=60, styles=("legalish", "survive", "chaos", "legal", "late_illegal", "solveish", "crowded"),
+          min_len=1):
     style = draw(st.sampled_from(list(styles)))
     pool = STYLES[style]
     n = draw(st.integers(min_len, max_len))
